@@ -93,6 +93,24 @@ example : NoClamp true { vals := [([7], { token := 0, stake := 0 })], valD := [[
   · simp at hv; subst hv; exact ⟨rfl, rfl⟩
   · simp at hv
 
+
+/-- **A validator's delegation list does not depend on the order in which its delegators arrive.**  `dinsert` is the
+sorted insert of `Validator.UpdateDelegationFrom` (what `UpdateDelegation` / the staking module perform for a non-empty
+delegation: `dlgUpdate`); inserting any set of delegations with distinct delegators into a sorted list yields, for every
+permutation of the arrivals, the same list, which is strictly sorted and in which the lookup finds every delegator. -/
+theorem delegations_order_independent (l xs ys : List Dlg) (hs : DSorted l) (hp : xs.Perm ys)
+    (hn : (xs.map (·.delegator)).Nodup) :
+    dinsertAll l xs = dinsertAll l ys ∧ DSorted (dinsertAll l xs) ∧ (∀ x ∈ xs, dfind (dinsertAll l xs) x.delegator = some x) ∧
+    (∀ x : Dlg, x.isEmpty = false → (dlgUpdate l x).1 = dinsert x l) := by
+  refine ⟨dinsertAll_perm l xs ys hs hp hn, dinsertAll_sorted xs l hs, fun x hx => dfind_dinsertAll_mem xs l x hn hx, ?_⟩
+  intro x hx
+  unfold dlgUpdate
+  cases dfind l x.delegator <;> simp [hx]
+
+/-- test: three delegators arriving as d1,d3,d2 and as d2,d1,d3 give the list d1,d2,d3 -/
+example : dinsertAll [] [⟨[1], 1, 1⟩, ⟨[3], 3, 3⟩, ⟨[2], 2, 2⟩] = [⟨[1], 1, 1⟩, ⟨[2], 2, 2⟩, ⟨[3], 3, 3⟩] ∧
+    dinsertAll [] [⟨[2], 2, 2⟩, ⟨[1], 1, 1⟩, ⟨[3], 3, 3⟩] = [⟨[1], 1, 1⟩, ⟨[2], 2, 2⟩, ⟨[3], 3, 3⟩] := by decide
+
 /-! ## 3. the flush depends on the logical state only (regrouping of writes and flush points) -/
 
 /-- cache coherence: a live object that is neither journal-dirty nor pending is exactly what the trie holds -/
